@@ -205,6 +205,8 @@ SEQ_METHODS = {"append": m_append, "index": m_index, "remove": m_remove, "pop": 
 
 # ------------------------------------------------------------------------- symbolic maps
 def map_get(I, m, k):
+    if k is None or isinstance(k, (Obj, Opaque)):
+        I.raise_py("KeyError", k)
     zk = to_z3(k)
     if not I.st.branch(z3.Select(m.has, zk), "key in map"):
         I.raise_py("KeyError", k)
@@ -224,6 +226,8 @@ def mm_keys(I, m, a, k):
 
 
 def mm_get(I, m, a, k):
+    if a[0] is None or isinstance(a[0], (Obj, Opaque)):
+        return a[1] if len(a) > 1 else None          # a key of another type is not in a map keyed by bytes / str / int
     zk = to_z3(a[0])
     if not I.st.branch(z3.Select(m.has, zk), "key in map"):
         return a[1] if len(a) > 1 else None
